@@ -6,6 +6,7 @@ import (
 	"fmt"
 	"net"
 	"sync"
+	"sync/atomic"
 	"syscall"
 	"testing"
 	"time"
@@ -152,7 +153,7 @@ type c19case struct {
 }
 
 func TestC19_StateMachine(t *testing.T) {
-	ev.Rule(c19, "rapid state machine over a real mpx.Client (on-demand and auto-connect, MaxConns 1..4, channel target 1..8) behind a counting proxy: actions {open a channel and keep it, round trip on an open channel, free a channel, burst of 2..12 concurrent Channel calls, kill all connections, kill all connections and reset the replacement connection after 0..8 handshake bytes while its connect routine is held between dial and registration (schedule point 16), server unreachable, server reachable, 50 ms dial latency, Close, quiesce}; invariants at quiescent points (polled until stable): exactly one of Connected/Disconnected, Connected => Conn OK and a channel round-trips, proxy-side live connections <= MaxConns (high-water mark over intervals without kills), after Close: second Close OK, calls return a closed status, live connections drop to 0 and stay 0; after the server is back an on-demand client's next call succeeds and an auto-connect client reconnects by itself (a connection appears at the proxy before the check makes any call); non-trivial = run contains a kill-and-recover and a concurrent burst, or a Close racing a dial; distinct by step hash")
+	ev.Rule(c19, "rapid state machine over a real mpx.Client (on-demand and auto-connect, MaxConns 1..4, channel target 1..8) behind a counting proxy: actions {open a channel and keep it, round trip on an open channel, free a channel, burst of 2..12 concurrent Channel calls, kill all connections, kill all connections and reset the replacement connection after 0..8 handshake bytes while its connect routine is held between dial and registration (schedule point 16), with MaxConns >= 2 and one live connection: fill its channel target and reset the additional connection inside the same window (then optionally Close), server unreachable, server reachable, 50 ms dial latency, Close, quiesce}; invariants at quiescent points (polled until stable): exactly one of Connected/Disconnected, Connected => Conn OK and a channel round-trips, proxy-side live connections <= MaxConns (high-water mark over intervals without kills), after Close: second Close OK, calls return a closed status, live connections drop to 0 and stay 0; after the server is back an on-demand client's next call succeeds and an auto-connect client reconnects by itself (a connection appears at the proxy before the check makes any call); non-trivial = run contains a kill-and-recover and a concurrent burst, or a Close racing a dial; distinct by step hash")
 	srv, err := netfx.StartServer(echoHandler(), netfx.NewLogger(), mpx.Default())
 	if err != nil {
 		t.Fatalf("infrastructure: %v", err)
@@ -313,7 +314,58 @@ func TestC19_StateMachine(t *testing.T) {
 		}
 		n := rapid.IntRange(3, 18).Draw(rt, "steps")
 		for i := 0; i < n; i++ {
-			switch rapid.IntRange(0, 9).Draw(rt, "action") {
+			switch rapid.IntRange(0, 10).Draw(rt, "action") {
+			case 10:
+				// an additional connection (opened because the channel target of the only live connection is
+				// reached) is reset while its connect routine is between dial and registration: its close
+				// callback runs for a connection that was never registered and must leave the live one alone
+				if closed || !up || opts.ClientMaxConns < 2 || px.Live.Load() != 1 {
+					continue
+				}
+				after := rapid.IntRange(0, 8).Draw(rt, "extracutafter")
+				px.SetPlan(netfx.Plan{Kind: netfx.CutRST, Dir: 0, After: after})
+				px.Hold()
+				var trapped atomic.Bool
+				disarm := setTrap(mpx.VerifPointClientConnStarted, func() {
+					px.Release()
+					time.Sleep(30 * time.Millisecond)
+					trapped.Store(true)
+				})
+				opened := 0
+				for k := 0; k <= opts.ClientConnChannels && !trapped.Load(); k++ {
+					ch, st := cl.Channel(ctx())
+					if !st.OK() {
+						break
+					}
+					open = append(open, ch)
+					opened++
+					time.Sleep(2 * time.Millisecond)
+				}
+				for dl := time.Now().Add(time.Second); !trapped.Load() && time.Now().Before(dl); {
+					time.Sleep(time.Millisecond)
+				}
+				fired := disarm()
+				px.Release()
+				px.SetPlan(netfx.Plan{})
+				dirty = true
+				step("opened %d channels on the only connection; the additional connection is reset after %d bytes inside its connect window (trap fired: %v)", opened, after, fired)
+				if fired {
+					ev.Label(c19, "extra-connection-died-inside-connect-window", 1)
+					time.Sleep(40 * time.Millisecond)
+					if rapid.Bool().Draw(rt, "thenclose") {
+						st := cl.Close()
+						step("close -> %v", st.Code)
+						if !st.OK() {
+							fail("close-failed", "Close returned %v", st)
+						}
+						closed = true
+						for _, ch := range open {
+							ch.Free()
+						}
+						open = nil
+						quiesce()
+					}
+				}
 			case 0, 1: // open and keep
 				ch, st := cl.Channel(ctx())
 				step("open -> %v", st.Code)
